@@ -62,6 +62,10 @@ package common
 //@   modifies *dec.buf
 //@   ensures [len] Len(dec) == old(Len(dec)) && Pos(dec) <= Len(dec)
 //@   ensures [ok] err == nil ==> IntegerEnc(result0)
+//@   -- value level: the result is the big-endian value of the il bytes that follow the 2-byte length field il -- ANY length is accepted, leading
+//@   -- zero bytes included (the decoder alone is not injective; WriteInteger writes only the minimal form; see the lemmas below)
+//@   ensures [local-value] err == nil ==> val(result0) == BigValOf(Win(dec, old(Pos(dec)) + 2, Be16Dec(Win(dec, old(Pos(dec)), 2))))
+//@   ensures [content] Content(dec) == old(Content(dec))
 
 //@ func (dec *Decoder) ReadInput
 //@   property C06
@@ -151,6 +155,7 @@ package common
 //@   modifies enc.buf, enc.buf[*]
 //@   ensures [ownbuf] arr(enc.buf) == old(arr(enc.buf)) || fresh(enc.buf)
 //@   ensures len(enc.buf) == old(len(enc.buf)) + len(b)
+//@   ensures [bytes] seq(enc.buf) == cat(old(seq(enc.buf)), old(seq(b)))
 
 //@ func (enc *Encoder) WriteByte
 //@   property C06
@@ -165,6 +170,7 @@ package common
 //@   modifies enc.buf, enc.buf[*]
 //@   ensures [ownbuf] arr(enc.buf) == old(arr(enc.buf)) || fresh(enc.buf)
 //@   ensures len(enc.buf) == old(len(enc.buf)) + 2
+//@   ensures [bytes] seq(enc.buf) == cat(old(seq(enc.buf)), Be16(d))
 
 //@ func (enc *Encoder) WriteInt
 //@   property C06, C08
@@ -173,6 +179,7 @@ package common
 //@   modifies enc.buf, enc.buf[*]
 //@   ensures [ownbuf] arr(enc.buf) == old(arr(enc.buf)) || fresh(enc.buf)
 //@   ensures len(enc.buf) == old(len(enc.buf)) + 2
+//@   ensures [bytes] d >= 0 ==> seq(enc.buf) == cat(old(seq(enc.buf)), Be16(d))   -- d as a mathematical integer (a negative d would be narrowed)
 
 //@ func (enc *Encoder) WriteUint32
 //@   property C06
@@ -180,6 +187,7 @@ package common
 //@   modifies enc.buf, enc.buf[*]
 //@   ensures [ownbuf] arr(enc.buf) == old(arr(enc.buf)) || fresh(enc.buf)
 //@   ensures len(enc.buf) == old(len(enc.buf)) + 4
+//@   ensures [bytes] seq(enc.buf) == cat(old(seq(enc.buf)), Be32(d))
 
 //@ func (enc *Encoder) WriteUint64
 //@   property C06, C08
@@ -187,6 +195,7 @@ package common
 //@   modifies enc.buf, enc.buf[*]
 //@   ensures [ownbuf] arr(enc.buf) == old(arr(enc.buf)) || fresh(enc.buf)
 //@   ensures len(enc.buf) == old(len(enc.buf)) + 8
+//@   ensures [bytes] seq(enc.buf) == cat(old(seq(enc.buf)), Be64Of(d))
 
 //@ func (enc *Encoder) WriteInteger
 //@   property C06
@@ -194,6 +203,9 @@ package common
 //@   modifies enc.buf, enc.buf[*]
 //@   ensures [ownbuf] arr(enc.buf) == old(arr(enc.buf)) || fresh(enc.buf)
 //@   ensures len(enc.buf) == old(len(enc.buf)) + 2 + bytelen(val(d))
+//@   -- canonical (minimal) form: the length field is bytelen(val(d)), followed by exactly that many magnitude bytes
+//@   hint after WriteInt [length-field] seq(enc.buf) == cat(old(seq(enc.buf)), Be16(bytelen(val(d))))
+//@   ensures [magnitude] seq(enc.buf[old(len(enc.buf)) + 2 : len(enc.buf)]) == BigBytesOf(val(d), bytelen(val(d)))
 
 //@ -- Injectivity of the index field: the guard is EXACT on the mathematical value of in.Index (a uint): EncodeInput returns only for
 //@ -- in.Index <= InputIndexLimit (panic-iff) and panics only above it (panic-spec), so no index >= 65536 can be narrowed into an accepted
@@ -202,6 +214,8 @@ package common
 //@   property C06
 //@   requires enc != nil && InputEncOK(in)
 //@   panics when in.Index > InputIndexLimit
+//@   -- WHICH value is written: after the index field the buffer is old ++ Hash ++ Be16(in.Index), in.Index being the mathematical value of the uint
+//@   hint after WriteUint16 [index-field] seq(enc.buf) == cat(cat(old(seq(enc.buf)), old(seq(in.Hash))), Be16(in.Index))
 //@   modifies enc.buf, enc.buf[*]
 //@   ensures [ownbuf] arr(enc.buf) == old(arr(enc.buf)) || fresh(enc.buf)
 
@@ -257,6 +271,28 @@ package common
 //@ spec TxBytes(tx *SignedTransaction) mathint = cat(TxBody(tx.Version, tx.Asset, tx.Inputs, tx.Outputs, tx.References, tx.Extra), TxSigs(tx.SignaturesMap, tx.AggregatedSignature))
 //@ spec MarshalBytes(ver *VersionedTransaction) mathint = TxBytes(&ver.SignedTransaction)
 //@ spec PayloadBytes(ver *VersionedTransaction) mathint = cat(TxBody(ver.Version, ver.Asset, ver.Inputs, ver.Outputs, ver.References, ver.Extra), TxSigs(nil, nil))
+
+// ───────────── primitive pairs: encode -> decode round trip (value level) ─────────────
+//@ -- If the decoded content at position p is what WriteUint16(d) / WriteInt(d) appended (Be16(d)), ReadUint16 / ReadInt return d:
+//@ -- their [value] clause says Be16(result) == Win(p, 2), and Be16 is injective on 16-bit values.
+//@ lemma U16RoundTrip(d mathint, r mathint)
+//@   property C06
+//@   requires 0 <= d && d < 65536 && 0 <= r && r < 65536 && Be16(r) == Be16(d)
+//@   ensures r == d
+//@ -- WriteInteger(v) appends Be16(bytelen(v)) ++ BigBytesOf(v, bytelen(v)) ([length-field], [magnitude]); ReadInteger's [local-value] formula
+//@ -- applied to a content c that holds these bytes at p yields v.
+//@ lemma IntegerRoundTrip(v mathint, c mathint, p mathint)
+//@   property C06
+//@   requires 0 <= v && bytelen(v) >= 0 && bytelen(v) <= MaximumEncodingInt
+//@   requires bytes.rdwin(c, p, 2) == Be16(bytelen(v)) && bytes.rdwin(c, p + 2, bytelen(v)) == BigBytesOf(v, bytelen(v))
+//@   ensures BigValOf(bytes.rdwin(c, p + 2, Be16Dec(bytes.rdwin(c, p, 2)))) == v
+//@ -- ...but so does every zero-padded form (n > bytelen(v)): the decoder alone maps several byte strings to one Integer. This is exactly
+//@ -- why acceptance needs the canonical re-encoding comparison of unmarshalVersionedTransaction ([canonical-bytes]).
+//@ lemma IntegerPaddedDecodesToo(v mathint, n mathint, c mathint, p mathint)
+//@   property C06
+//@   requires 0 <= v && bytelen(v) <= n && n <= MaximumEncodingInt && 0 <= n
+//@   requires bytes.rdwin(c, p, 2) == Be16(n) && bytes.rdwin(c, p + 2, n) == BigBytesOf(v, n)
+//@   ensures BigValOf(bytes.rdwin(c, p + 2, Be16Dec(bytes.rdwin(c, p, 2)))) == v
 
 // ───────────── version.go ─────────────
 
